@@ -392,8 +392,10 @@ int main(int argc, char **argv) {
 		if(al) return main_for<VPolicy<P, S, B, N, true, false>>(a); \
 		if(po) return main_for<VPolicy<P, S, B, N, false, true>>(a); \
 		return main_for<VPolicy<P, S, B, N, false, false>>(a); }
+#ifndef FRG_SLAB_TRACK_REGIONS     // with region tracking the frame no longer fits the padding of the two small test geometries
 	GEOM("tiny", 64, 256, 256, 4)
 	GEOM("small", 0x100, 0x1000, 0x1000, 6)
+#endif
 	GEOM("mid", 0x1000, (1 << 16), (1 << 18), 9)
 	GEOM("default", 0x1000, (1 << 18), (1 << 18), 13)
 	fprintf(stderr, "unknown geometry\n");
